@@ -405,6 +405,14 @@ func init() {
 			}
 			// several readers per node that re-read delivered blocks through the
 			// node's block API as fast as they can while consensus goes on
+			// a validator told to leave while its application is busy with a block
+			leaves := 4
+			if tier == "thorough" {
+				leaves = 40
+			}
+			for i := 0; i < leaves; i++ {
+				cs = append(cs, CaseSpec{Kind: "leave", P: map[string]int64{"n": int64(4 + i%2), "slow_ms": int64(100 + 50*(i%3)), "attempts": 2, "lv": 1}})
+			}
 			hammers := 4
 			if tier == "thorough" {
 				hammers = 12
@@ -415,6 +423,9 @@ func init() {
 			return cs
 		},
 		Run: func(cs CaseSpec) *CaseResult {
+			if cs.Kind == "leave" {
+				return runC02Leave(cs)
+			}
 			if cs.Kind == "soak" {
 				return runLiveSoak(cs)
 			}
